@@ -20,7 +20,18 @@ package reverseexpand
 // reads THIS request's store with THIS request's consistency preference, and the request handed to the next hop keeps
 // store, target, contextual tuples, context and consistency
 //@ func (*ReverseExpandQuery).readTuplesAndExecute(c, ctx, req, resultChan, intersectionOrExclusionInPreviousEdges, resolutionMetadata) (err)
-//@   property C10 C16
+//@   property C10 C16 C20
+//@   option monitor_props release=C20
+//@   ensures @iteratorReleased opened ==> released
+//@   monitor release
+//@     ghost cur iface = nil
+//@     ghost opened = false
+//@     ghost released = false
+//@     after call storage.RelationshipTupleReader.ReadStartingWithUser returning it, e : opened = e == nil ; cur = it ; released = false
+//@     after call storage.NewTupleKeyIteratorFromTupleIterator args x returning r : cur = (x == cur ? r : cur)
+//@     after call storage.NewFilteredTupleKeyIterator args x, f returning r : cur = (x == cur ? r : cur)
+//@     after call storage.NewConditionsFilteredTupleKeyIterator args x, f returning r : cur = (x == cur ? r : cur)
+//@     after call defer:storage.Iterator.Stop | defer:storage.TupleKeyIterator.Stop | defer:storage.TupleIterator.Stop args recv : released = released || recv == cur
 //@   option nosafety
 //@   option defer_neutral
 //@   option may_panic
@@ -43,3 +54,28 @@ package reverseexpand
 //@   monitor perEdge
 //@     before call (*pool.ContextPool).Go args _ : assert r != nil && r.StoreID == req.StoreID && r.ObjectType == req.ObjectType && r.Relation == req.Relation && r.ContextualTuples == req.ContextualTuples && r.Context == req.Context && r.Consistency == req.Consistency
 //@     before call (*reverseexpand.ReverseExpandQuery).dispatch args _, _, rr : assert rr != nil && rr.StoreID == req.StoreID && rr.ObjectType == req.ObjectType && rr.Relation == req.Relation && rr.ContextualTuples == req.ContextualTuples && rr.Context == req.Context && rr.Consistency == req.Consistency
+
+// ------------------------------------------------------------------ C20: iterators opened by the reverse expansion are released
+// (C20, release kernel: the iterator opened here is released on every path — its outermost adapter is stopped by a
+// registered defer; the adapters' Stop reaches the wrapped iterator, see pkg/storage)
+//@ func (*ReverseExpandQuery).executeQueryJob(c, ctx, job, resultChan, needsCheck) (jobs, err)
+//@   property C20
+//@   option nosafety
+//@   ensures @iteratorReleased opened ==> released
+//@   monitor release
+//@     ghost cur iface = nil
+//@     ghost opened = false
+//@     ghost released = false
+//@     after call (*reverseexpand.ReverseExpandQuery).buildFilteredIterator returning it, e : opened = e == nil ; cur = it ; released = false
+//@     after call storage.NewTupleKeyIteratorFromTupleIterator args x returning r : cur = (x == cur ? r : cur)
+//@     after call storage.NewFilteredTupleKeyIterator args x, f returning r : cur = (x == cur ? r : cur)
+//@     after call storage.NewConditionsFilteredTupleKeyIterator args x, f returning r : cur = (x == cur ? r : cur)
+//@     after call defer:storage.Iterator.Stop | defer:storage.TupleKeyIterator.Stop | defer:storage.TupleIterator.Stop args recv : released = released || recv == cur
+
+// ------------------------------------------------------------------ C19: no-panic sweep (thin, safety-only contracts)
+// every index and slice expression of these functions is in range for ALL inputs, with no precondition (generated by
+// bin/sweepgen, kept because every obligation discharges; callees without contract are treated as arbitrary)
+//@ func (*ReverseExpandQuery).intersectionHandler(recv, a0, a1, a2, a3, a4, a5) (r0)
+//@   property C19
+//@   option nosafety
+//@   option safety slice,index
